@@ -69,10 +69,25 @@ TraceK(o, m) ==
 \*      with ECANCELED.
 \*  (2) A handler invocation whose block is at the head of its op_q, a handler return and the end
 \*      marker commute with every silent step (they disable nothing): they are consumed first.
+\* the delivery just posted for o is the next recorded one
+NextMatches(o) ==
+  LET blk == opq'[o][Len(opq'[o])]
+      h == cx.ops[o][Posted(o) + 1] IN
+  /\ Size(blk.inv[1].data) = h.n /\ (h.done = 1) = blk.inv[1].done /\ ErrClass(blk.inv[1].err) = h.err
 FinalErr(o) == LET hs == cx.ops[o] IN IF hs = <<>> THEN 0 ELSE hs[Len(hs)].err
 StopPrune == Liberal # "no" \/
              \A o \in Ops : op[o].st \in {"chq", "created", "sq", "listed"} => FinalErr(o) # 0
+\* without a STOP in the execution an operation that ends with ECANCELED was turned away at the
+\* barrier queue at the latest
+EnqPrune == (Head(bq).k = "enq" /\ flags = {}) => ~(FinalErr(Head(bq).o) = 2 /\ cx.hasstop = 0)
 ClosePrune == \A o \in Ops : op[o].st \in {"chq", "created"} => FinalErr(o) = 2
+\*      (also: a system call that ends with a kernel error / with EOF / a convenience read that
+\*      completes on EAGAIN must fit the operation's recorded end)
+SyscallPrune(d) ==
+  LET o == pend[d].o IN
+  /\ (op'[o].err = EKERN) => FinalErr(o) = 1
+  /\ (pend'[d].res = "DAC") => FinalErr(o) # 1
+  /\ (pend'[d].res = "CRESUME") => op'[o].total = cx.ops[o][1].n
 HReady == /\ Ev("H") /\ opq[Rcd.o] # <<>>
           /\ LET inv == Head(opq[Rcd.o]).inv[1] IN
              /\ inv.done = (Rcd.done = 1) /\ inv.null = (Rcd.null = 1)
@@ -90,7 +105,7 @@ TReset ==
   /\ cuser' = [o \in Ops |-> "none"] /\ cres' = [o \in Ops |-> NoRes]
   /\ cstate' = "run" /\ nops' = 0 /\ nbars' = 0 /\ nsetl' = 0 /\ nseth' = 0
   /\ closeCall' = FALSE /\ stopCall' = FALSE /\ released' = FALSE /\ wsub' = 0
-  /\ flags' = {} /\ clow' = Chunk /\ chigh' = INF
+  /\ flags' = {} /\ clow' = Chunk /\ chigh' = INF /\ cint' = "off"
   /\ chFd' = (Rcd.kind \notin {"convin", "convout", "convsock"})
   /\ chq' = <<>> /\ bq' = <<>> /\ bqSusp' = 0
   /\ sq' = [d \in Dirs |-> <<>>] /\ pend' = [d \in Dirs |-> NoPend]
@@ -113,6 +128,7 @@ Regs(off, frag) == IF frag = <<>> THEN <<>> ELSE << <<off, frag[1]>> >> \o Regs(
 
 TSetLow == Ev("SetLow") /\ Consume /\ CSetLow(Rcd.v)
 TSetHigh == Ev("SetHigh") /\ Consume /\ CSetHigh(Rcd.v)
+TSetInterval == Ev("SetInterval") /\ Consume /\ CSetInterval(IF Rcd.strict = 1 THEN "strict" ELSE "lax")
 TRead == Ev("Read") /\ Consume /\ CSubmit(Rcd.o, "R", Rcd.len, <<>>)
 TWrite == Ev("Write") /\ Consume /\ Rcd.off = wsub /\ CSubmit(Rcd.o, "W", Rcd.len, Regs(Rcd.off, Rcd.frag))
 TCRead == Ev("CRead") /\ Consume /\ CConv(Rcd.o, "R", Rcd.len, <<>>)
@@ -151,6 +167,9 @@ TBarStart ==
   /\ (Rcd.wout >= 0 /\ cx.kind \in {"pipeout", "sock", "fileout"}) => Size(kout.content) = Rcd.wout
 TBarEnd == Ev("BarEnd") /\ Consume /\ BarrierEnd(Rcd.b)
 TCleanup == Ev("Cleanup") /\ Consume /\ CleanupRun
+\* the cleanup handler of a first channel that handed the descriptor over with
+\* dispatch_io_create_with_io and was closed at once: same fd_entry, same close queue
+TCleanup2 == Ev("Cleanup2") /\ Consume /\ clq \in {"posted", "ran"} /\ UNCHANGED vars
 \* end of an execution: every byte the handlers saw was counted by the harness
 TExecEnd == /\ Ev("ExecEnd") /\ Consume /\ UNCHANGED vars
             /\ cx.kind \in {"pipein", "sock", "filein"} => kin.rpos = Rcd.cin
@@ -170,18 +189,22 @@ TPeerHup == Ev("PeerHup") /\ Consume /\ PeerHup
 TSilent ==
   /\ Silent
   /\ \/ ChqStep
-     \/ BqStep /\ (Head(bq).k = "close" /\ flags = {} => ClosePrune)
-     \/ \E d \in Dirs : SqSenq(d) \/ SqCleanup(d) \/ SqPick(d) \/ SqSyscall(d, TraceK) \/ SqFinish(d) \/ SourceFire(d)
+     \/ BqStep /\ (Head(bq).k = "close" /\ flags = {} => ClosePrune) /\ EnqPrune
+     \/ \E d \in Dirs : SqSenq(d) \/ SqCleanup(d) \/ SqPick(d) \/ (SqSyscall(d, TraceK) /\ SyscallPrune(d)) \/ SqFinish(d) \/ SourceFire(d)
      \/ CloseQRun \/ ChannelDispose
+     \* an interval timer fires: only worth it if it produces the next recorded delivery
+     \/ \E o \in Ops : TimerPost(o) /\ Posted(o) < Len(cx.ops[o]) /\ cx.ops[o][Posted(o) + 1].done = 0
+     \/ \E d \in Dirs : SqTimer(d) /\ LET o == Head(sq[d]).o IN
+                                       (op[o].st = "listed" => (Posted(o)' = Posted(o) + 1 /\ NextMatches(o)))
      \/ \E o \in Ops : op[o].conv /\ HandlerRun(o)      \* the internal handler of a convenience call
 
 \* depth-first search explores the LAST disjunct's successors first: consuming a record is
 \* preferred to running the library ahead
 TNext == \/ ~Forced /\ TSilent
          \/ TReset
-         \/ TSetLow \/ TSetHigh \/ TRead \/ TWrite \/ TCRead \/ TCWrite \/ TCH \/ TBarrier \/ TClose \/ TRelease
+         \/ TSetLow \/ TSetHigh \/ TSetInterval \/ TRead \/ TWrite \/ TCRead \/ TCWrite \/ TCH \/ TBarrier \/ TClose \/ TRelease
          \/ TStopCall \/ (~Forced /\ TStopEffect) \/ TStopRet
-         \/ TH \/ THEnd \/ TBarStart \/ TBarEnd \/ TCleanup \/ TExecEnd
+         \/ TH \/ THEnd \/ TBarStart \/ TBarEnd \/ TCleanup \/ TCleanup2 \/ TExecEnd
          \/ TPeerWrite \/ TPeerUnwrite \/ TPeerClose \/ TPeerRead \/ TPeerHup
 
 TSpec == TInit /\ [][TNext]_tvars
